@@ -51,6 +51,14 @@ CLAIMED = {
         "implementation only — partial. Every cut offset of small files and every field boundary ±1 of large ones is read through both readers and three cache states.",
    technique="Lean 4 proof (generic truncation argument over reader programs) + exhaustive cut-offset enumeration on the implementation",
    design="§5 C07"),
+ "C18": dict(
+   text="Theorem (Props/C18.lean): for the cache protocol with atomic lookup+copy and update sections (the code's locked regions), ANY number of threads and ANY schedule, a finished thread holds exactly the "
+        "decode of its own file (reads_isolated, by the invariant 'the cache is empty or a consistent snapshot of one file's header'), plus progress; the protocol with a separate compare and fetch is proved to violate "
+        "isolation on a concrete 4-step schedule. The real Pose.read runs in real threads under a deterministic line-level scheduler (sys.settrace, cooperative locks): all single-preemption and (sampled / exhaustive) "
+        "double-preemption schedules over file pairs × sources × initial cache; each thread's result is compared with its single-threaded result and with the protocol model run on the observed order of cache sections. "
+        "Partial: preemption inside a source line / C extension is not explored.",
+   technique="Lean 4 proof (invariant over arbitrary schedules of a small-step protocol model) + systematic schedule exploration of the real code with a preemption bound",
+   design="§5 C18"),
 }
 
 checks = []
